@@ -334,7 +334,7 @@ pub fn run_c10(ctx: &Ctx) {
             });
         }
     }
-    let per_type = ctx.n(20_000, 2_000_000);
+    let per_type = ctx.n(60_000, 3_000_000);
     ctx.run_group("sampled", per_type * 19, false, |c| {
         let idx = (c.idx % 19) as usize;
         with_all_k!(idx, K => c10_random::<K>(c))
@@ -456,6 +456,33 @@ fn c11_case<K: Kmer + Serialize + Send + Sync>(c: &mut Case) -> Result<(), Strin
         }
         vals.push((x, m));
     }
+    // structurally related values (half swaps, rotations by 32 bases, one base moved between the
+    // first and the last K-32 bases): distinct strings that a folding hash would confuse
+    if k >= 4 {
+        let base = vals[0].1.clone();
+        let mut rel: Vec<S> = Vec::new();
+        let mut sw = base[k / 2..].to_vec();
+        sw.extend_from_slice(&base[..k / 2]);
+        rel.push(sw);
+        if k > 32 {
+            let mut rot = base[32..].to_vec();
+            rot.extend_from_slice(&base[..32]);
+            rel.push(rot);
+            let mut a = base.clone();
+            let mut b = base.clone();
+            let p = c.rng.below(k - 32);
+            a[p] = (a[p] + 1) & 3;
+            b[p + 32] = (b[p + 32] + 1) & 3;
+            rel.push(a);
+            rel.push(b);
+        }
+        let period = *c.rng.pick(&[1usize, 2, 4, 8, 16]);
+        let unit = c.rng.bases(period, 4);
+        rel.push((0..k).map(|i| unit[i % period]).collect());
+        for r in rel {
+            vals.push((K::from_bytes(&r), r));
+        }
+    }
     // pairwise order
     for i in 0..vals.len() {
         for j in 0..vals.len() {
@@ -470,6 +497,16 @@ fn c11_case<K: Kmer + Serialize + Send + Sync>(c: &mut Case) -> Result<(), Strin
             ensure!((vals[i].0 == vals[j].0) == (vals[i].1 == vals[j].1), "== disagrees with string equality");
             if vals[i].1 == vals[j].1 {
                 ensure!(hash_of(&vals[i].0) == hash_of(&vals[j].0), "equal strings hash differently");
+            } else {
+                // "hash equal exactly when they spell the same string": a 64-bit SipHash collision
+                // between two of a handful of strings has probability ~2^-64 per pair
+                ensure!(
+                    hash_of(&vals[i].0) != hash_of(&vals[j].0),
+                    "different strings {} and {} feed identical data to the hasher (same DefaultHasher digest)",
+                    ascii(&vals[i].1),
+                    ascii(&vals[j].1)
+                );
+                c.count("distinct_pairs_hash_compared", 1);
             }
         }
     }
@@ -516,7 +553,7 @@ fn c11_case<K: Kmer + Serialize + Send + Sync>(c: &mut Case) -> Result<(), Strin
 pub const RULE_C11: &str = "case = 2-11 values of one K type, each produced by a random operation history of 1-12 steps from {extend_left, extend_right, rc, set_mut, packed set_slice_mut with and without junk bits, min_rc, min_rc_flip, from_ascii, from_u64 (K<=32), MerImmut::set}; after EVERY step ==, cmp, DefaultHasher and the serde-visible storage (unused lanes zero) are compared with K::from_bytes of the model string; then all pairs for order/equality/hash, and sort/dedup/binary_search/BoomHashMap lookup against the same operations on strings; all 19 types; distinct = hash(K, final strings)";
 
 pub fn run_c11(ctx: &Ctx) {
-    let per_type = ctx.n(20_000, 2_000_000);
+    let per_type = ctx.n(100_000, 5_000_000);
     ctx.run_group("histories", per_type * 19, false, |c| {
         let idx = (c.idx % 19) as usize;
         with_all_k!(idx, K => c11_case::<K>(c))
